@@ -104,3 +104,29 @@ Definition config_sites : list (str * str) := filter (fun s => negb (build_time 
 Lemma config_sites_are_SetDebug :
   forallb (fun s => str_eqb (fst s) [83; 101; 116; 68; 101; 98; 117; 103]%N) config_sites = true.
 Proof. vm_compute. reflexivity. Qed.
+
+(* ---- object pools (GVGen.Tables.pool_sites: every function of the repository that takes from or
+   puts into a package-level sync.Pool, and every function that calls a releasing method) ----
+   PAcquire: the object leaves the pool and belongs to the caller.
+   PRelease: the method that hands the object back.
+   PLastUser: the function that releases is the one that makes the last use of the object's buffer:
+     Config.fprint defers p.free() and itself writes p.output to the destination before it returns,
+     so no reference to the buffer survives the release.  A release from any other function (a
+     helper that returns the buffer, a caller further up) is a new site: Pool_sites_classified fails. *)
+Inductive pclass := PAcquire | PRelease | PLastUser.
+Definition known_pool_sites : list (str * str * pclass) :=
+  [ ([105; 110; 116; 101; 114; 110; 97; 108; 47; 103; 111; 47; 112; 114; 105; 110; 116; 101; 114; 32; 110; 101; 119; 80; 114; 105; 110; 116; 101; 114]%N, [112; 111; 111; 108; 32; 112; 114; 105; 110; 116; 101; 114; 80; 111; 111; 108; 46; 71; 101; 116]%N, PAcquire) (* internal/go/printer newPrinter | pool printerPool.Get *);
+    ([105; 110; 116; 101; 114; 110; 97; 108; 47; 103; 111; 47; 112; 114; 105; 110; 116; 101; 114; 32; 112; 114; 105; 110; 116; 101; 114; 46; 102; 114; 101; 101]%N, [112; 111; 111; 108; 32; 112; 114; 105; 110; 116; 101; 114; 80; 111; 111; 108; 46; 80; 117; 116]%N, PRelease) (* internal/go/printer printer.free | pool printerPool.Put *);
+    ([105; 110; 116; 101; 114; 110; 97; 108; 47; 103; 111; 47; 112; 114; 105; 110; 116; 101; 114; 32; 67; 111; 110; 102; 105; 103; 46; 102; 112; 114; 105; 110; 116]%N, [114; 101; 108; 101; 97; 115; 101; 32; 102; 114; 101; 101]%N, PLastUser) (* internal/go/printer Config.fprint | release free *);
+    ([116; 97; 114; 103; 101; 116; 47; 106; 115; 47; 112; 114; 105; 110; 116; 101; 114; 32; 110; 101; 119; 80; 114; 105; 110; 116; 101; 114]%N, [112; 111; 111; 108; 32; 112; 114; 105; 110; 116; 101; 114; 80; 111; 111; 108; 46; 71; 101; 116]%N, PAcquire) (* target/js/printer newPrinter | pool printerPool.Get *);
+    ([116; 97; 114; 103; 101; 116; 47; 106; 115; 47; 112; 114; 105; 110; 116; 101; 114; 32; 112; 114; 105; 110; 116; 101; 114; 46; 102; 114; 101; 101]%N, [112; 111; 111; 108; 32; 112; 114; 105; 110; 116; 101; 114; 80; 111; 111; 108; 46; 80; 117; 116]%N, PRelease) (* target/js/printer printer.free | pool printerPool.Put *);
+    ([116; 97; 114; 103; 101; 116; 47; 106; 115; 47; 112; 114; 105; 110; 116; 101; 114; 32; 67; 111; 110; 102; 105; 103; 46; 102; 112; 114; 105; 110; 116]%N, [114; 101; 108; 101; 97; 115; 101; 32; 102; 114; 101; 101]%N, PLastUser) (* target/js/printer Config.fprint | release free *) ].
+Definition pool_classified (s : str * str) : bool :=
+  existsb (fun k => str_eqb (fst s) (fst (fst k)) && str_eqb (snd s) (snd (fst k))) known_pool_sites.
+Lemma Pool_sites_classified : forallb pool_classified pool_sites = true.
+Proof. vm_compute. reflexivity. Qed.
+(* and no listed site has disappeared (a pool that is no longer released is a leak, not a race, but
+   the table must describe the code that exists) *)
+Lemma Pool_sites_complete :
+  forallb (fun k => existsb (fun s => str_eqb (fst s) (fst (fst k)) && str_eqb (snd s) (snd (fst k))) pool_sites) known_pool_sites = true.
+Proof. vm_compute. reflexivity. Qed.
